@@ -42,6 +42,7 @@ VAL = {
     'IOBase': __import__('io').IOBase, 'TextIOBase': __import__('io').TextIOBase,
     'TextIOWrapper': __import__('io').TextIOWrapper, 'BufferedIOBase': __import__('io').BufferedIOBase,
     'ValueOrList': _types.ValueOrList,
+    'StringIO': __import__('io').StringIO,
 }
 EXC = {
     'BaseException': BaseException,
@@ -80,7 +81,8 @@ for _path in _glob.glob(os.path.join(sys.argv[1] if len(sys.argv) > 1 else '/rep
                 pass
 
 ATTRS = ['copy', 'pop', 'items', 'keys', 'values', 'get', 'pattern', 'isoformat', 'append', 'add',
-         'value', 'fromisoformat', '__len__', '__iter__', '__getitem__', '__contains__']
+         'value', 'fromisoformat', '__len__', '__iter__', '__getitem__', '__contains__', 'format', 'format_exception_only',
+         'print_error', 'getvalue', 'buffer', 'reconfigure', 'closed', 'readable', 'writable']
 
 
 def conflict(a, b):
